@@ -8,6 +8,7 @@ import (
 	"math/big"
 	"math/rand"
 	"path/filepath"
+	"strings"
 	"sync"
 	"sync/atomic"
 	"time"
@@ -184,7 +185,7 @@ func fmtReads(rs []read) string {
 
 func main() {
 	run := report.New("C14", "exploration")
-	run.Rule("scenarios (real time, small durations): S1 identity (two issuers, equal subject+serial), S2 default lifetime with read periods above and below the lifetime and a good->revoked flip, S3 nextUpdate past / near (requested lifespan read from the cache table), S4 zero duration => hits == calls, S5 failed queries (down, garbage, unauthenticated) are not cached, S6 two checker instances with different durations, S7 seeded provision/cleanup life cycles of 1 h-cache instances, after every step a fresh zero-duration instance must contact the responder for every certificate cached so far; oracle one-sided: a verdict served without a responder hit at an age above lifetime+margin, or for another issuer's certificate, is a violation; non-trivial = the scenario observed at least one read served from cache (or, for S4/S5, responder hits on every call); distinct = scenario instance")
+	run.Rule("scenarios (real time, small durations): S1 identity (two issuers, equal subject+serial; certificates with keyIdentifier / issuer+serial / long / no authorityKeyIdentifier), S2 default lifetime with read periods above and below the lifetime and a good->revoked flip, S3 nextUpdate past / near (requested lifespan read from the cache table), S4 zero duration => hits == calls, S5 failed queries (down, garbage, unauthenticated) are not cached, S6 two checker instances with different durations, S7 seeded provision/cleanup life cycles of 1 h-cache instances, after every step a fresh zero-duration instance must contact the responder for every certificate cached so far; oracle one-sided: a verdict served without a responder hit at an age above lifetime+margin, or for another issuer's certificate, is a violation; non-trivial = the scenario observed at least one read served from cache (or, for S4/S5, responder hits on every call); distinct = scenario instance")
 	run.Assume("all stamps from one monotonic clock in the harness process; a lateness probe voids a scenario when 5 ms timers fire more than margin/4 late", "margin = max(1 s, 3 x lifetime)")
 	scratch, _ := report.Scratch("C14")
 	sut.QuietStderr(filepath.Join(scratch, "stderr.log"))
@@ -328,11 +329,15 @@ func main() {
 		wB := world.New("C14-B")
 		defer wB.Close()
 		e.install(wB, "/b", wB.Int)
-		for _, variant := range []string{"A-good.B-down.strict", "A-revoked.B-down.lenient", "A-good.B-revoked"} {
+		for _, variant0 := range []string{"A-good.B-down.strict", "A-revoked.B-down.lenient", "A-good.B-revoked",
+			"A-good.B-down.strict/aki=issuer-serial", "A-revoked.B-down.lenient/aki=issuer-serial", "A-good.B-revoked/aki=issuer-serial",
+			"A-good.B-revoked/aki=long", "A-good.B-revoked/aki=none"} {
+			// the certificates' authorityKeyIdentifier: keyIdentifier (default), issuer+serial only, long form, absent
+			variant, akiForm, _ := strings.Cut(variant0, "/aki=")
 			serial := pki.NextSerial()
 			subj := "same subject " + serial.String()
-			leafA := w.Int.Issue(pki.CertOpts{CN: subj, Serial: serial, OCSP: []string{w.OCSP.URL("/a")}})
-			leafB := wB.Int.Issue(pki.CertOpts{CN: subj, Serial: serial, OCSP: []string{wB.OCSP.URL("/b")}})
+			leafA := w.Int.Issue(pki.CertOpts{CN: subj, Serial: serial, OCSP: []string{w.OCSP.URL("/a")}, AKIForm: strings.TrimPrefix(akiForm, "none"), NoAKI: akiForm == "none"})
+			leafB := wB.Int.Issue(pki.CertOpts{CN: subj, Serial: serial, OCSP: []string{wB.OCSP.URL("/b")}, AKIForm: strings.TrimPrefix(akiForm, "none"), NoAKI: akiForm == "none"})
 			chainA := []*x509.Certificate{leafA.Cert, w.Int.Cert, w.Root.Cert}
 			chainB := []*x509.Certificate{leafB.Cert, wB.Int.Cert, wB.Root.Cert}
 			strict := newChecker(true, time.Hour)
@@ -349,7 +354,7 @@ func main() {
 					continue
 				}
 				if errB == nil {
-					run.Violation("S1.identity.other-issuers-entry-served", "certificate of issuer B (responder down, strict) was answered from the cache entry of issuer A's certificate with equal subject and serial", &report.Replay{Case: variant})
+					run.Violation("S1.identity.other-issuers-entry-served"+akiKey(akiForm), "certificate of issuer B (responder down, strict) was answered from the cache entry of issuer A's certificate with equal subject and serial", &report.Replay{Case: variant})
 					continue
 				}
 			case "A-revoked.B-down.lenient":
@@ -362,7 +367,7 @@ func main() {
 					continue
 				}
 				if errB != nil || (sB != nil && sB.Revoked) {
-					run.Violation("S1.identity.other-issuers-revocation-applied", "certificate of issuer B was reported revoked/denied because issuer A's certificate with equal subject and serial is revoked", &report.Replay{Case: variant})
+					run.Violation("S1.identity.other-issuers-revocation-applied"+akiKey(akiForm), "certificate of issuer B was reported revoked/denied because issuer A's certificate with equal subject and serial is revoked", &report.Replay{Case: variant})
 					continue
 				}
 			case "A-good.B-revoked":
@@ -371,11 +376,11 @@ func main() {
 				_, _ = strict.IsRevoked(chainA[0], [][]*x509.Certificate{chainA})
 				sB, errB := strict.IsRevoked(chainB[0], [][]*x509.Certificate{chainB})
 				if errB != nil || sB == nil || !sB.Revoked {
-					run.Violation("S1.identity.revoked-certificate-answered-from-other-issuers-entry", fmt.Sprintf("issuer B's revoked certificate got err=%v status=%v after issuer A's equal-named certificate was cached as good", errB, sB), &report.Replay{Case: variant})
+					run.Violation("S1.identity.revoked-certificate-answered-from-other-issuers-entry"+akiKey(akiForm), fmt.Sprintf("issuer B's revoked certificate got err=%v status=%v after issuer A's equal-named certificate was cached as good", errB, sB), &report.Replay{Case: variant})
 					continue
 				}
 			}
-			run.NonTrivial("S1 " + variant)
+			run.NonTrivial("S1 " + variant0)
 		}
 	})
 	// S1c: identity within one issuer — serials that collide under truncation / prefixing
@@ -550,6 +555,13 @@ func main() {
 	}
 	run.Set("worst_timer_lateness_ms", float64(e.lateMax.Load())/1e6)
 	run.Finish(6)
+}
+
+func akiKey(form string) string {
+	if form == "" {
+		return ""
+	}
+	return ".aki-" + form
 }
 
 func (e *env) setOn(w *world.World, path string, serial *big.Int, st world.OCSPStatus, mode string) {
